@@ -149,7 +149,13 @@ def make_small(rng):
             vals[rng.randrange(n)] = None
             cols[name] = pd.Series(vals, dtype=object)
     df = pd.DataFrame(cols)
-    if rng.random() < 0.05:
+    if rng.random() < 0.08:
+        # a column the profile is never asked about holds unhashable cells (a pre-tokenized column of lists)
+        df['zz_tokens_unhashable'] = pd.Series([['t%d' % i, 'x'] for i in range(n)], dtype=object).values
+    elif rng.random() < 0.04:
+        # tuple labels in a flat Index (frame.columns.to_flat_index() after a pivot / groupby-agg)
+        df.columns = pd.Index([(str(c), i) for i, c in enumerate(df.columns)], tupleize_cols=False)
+    elif rng.random() < 0.05:
         # a pivoted wide table: the column labels are days (datetime64[ns]) or durations
         if rng.random() < 0.5:
             df.columns = pd.DatetimeIndex(np.array([np.datetime64('2020-01-01', 'ns') + np.timedelta64(i, 'D')
@@ -272,8 +278,11 @@ def run_case(case, rec, ssj=None):
     ssj = ssj or env.load()
     rng = random.Random(case['seed'])
     df = make_small(rng) if case['gen'] == 'small' else make_big(rng)
-    cols = list(df.columns)
+    cols = [c for c in df.columns if 'unhashable' not in str(c)]
+    unhashable = len(cols) != len(df.columns)
     r = rng.random()
+    if unhashable and r < 0.4:
+        r = 0.5          # (profiling the list column itself cannot work: always name the attributes)
     if r < 0.4:
         attrs = None
     elif r < 0.8:
@@ -290,10 +299,13 @@ def run_case(case, rec, ssj=None):
         elif form < 0.20:
             attrs = pd.Index(attrs)
         elif form < 0.26:
-            attrs = np.array(attrs, dtype=object)
-        elif form < 0.30 and len(cols) > 1:
+            arr = np.empty(len(attrs), dtype=object)
+            for i_, a_ in enumerate(attrs):
+                arr[i_] = a_
+            attrs = arr
+        elif form < 0.30 and len(cols) > 1 and not unhashable:
             attrs = df.columns[1:]
-        elif form < 0.36:
+        elif form < 0.36 and not unhashable:
             attrs = df.columns          # the table's own Index object
     rec.add('profile_attrs_forms', type(attrs).__name__)
     snap = T.snapshot_df(df) if len(df) < 100 else None
